@@ -30,6 +30,9 @@ type c18Case struct {
 	Waits string   `json:"waits"` // once | twice | three | expired
 	Storm bool     `json:"storm"`
 	Reps  int      `json:"reps"`
+	// Doc: order of the process elements in the document: "" as built (executable ones first), "rev" reversed
+	// (waiting processes first), "rot" the last one first
+	Doc string `json:"doc,omitempty"`
 }
 
 type c18Build struct {
@@ -262,14 +265,14 @@ func c18Cases(tier string, seed uint64) []fw.Case {
 					if tier != "thorough" && (ci+wi+int(hook*2))%2 == 1 {
 						continue
 					}
-					c := c18Case{Execs: ex, Link: link, Hook: hook, Waits: waits, Reps: 1}
+					c := c18Case{Execs: ex, Link: link, Hook: hook, Waits: waits, Reps: 1, Doc: []string{"", "rev", "rot"}[(ci+wi+len(link))%3]}
 					if hook > 0 {
 						c.Reps = 3
 						if tier == "thorough" {
 							c.Reps = 20
 						}
 					}
-					c.Name = fmt.Sprintf("%v/%s/h%v/%s", ex, link, hook, waits)
+					c.Name = fmt.Sprintf("%v/%s/h%v/%s/doc%s", ex, link, hook, waits, c.Doc)
 					cs = append(cs, fw.MkCase("stepwise", &c))
 				}
 			}
@@ -286,7 +289,19 @@ type c18Waiter struct {
 
 func c18Run(c *c18Case, env *fw.Env, v *fw.V) {
 	b := c18Definitions(c)
-	src := gen.XML(b.graphs, b.exec, b.extra)
+	// message flows name processes and nodes by id: the order of the process elements in the document is free
+	dg, de := append([]*gen.Graph(nil), b.graphs...), append([]bool(nil), b.exec...)
+	switch c.Doc {
+	case "rev":
+		for i, j := 0, len(dg)-1; i < j; i, j = i+1, j-1 {
+			dg[i], dg[j] = dg[j], dg[i]
+			de[i], de[j] = de[j], de[i]
+		}
+	case "rot":
+		dg = append(dg[len(dg)-1:], dg[:len(dg)-1]...)
+		de = append(de[len(de)-1:], de[:len(de)-1]...)
+	}
+	src := gen.XML(dg, de, b.extra)
 	defs, err := schema.Parse([]byte(src))
 	if err != nil {
 		v.Inconclusive("parse", "%v", err)
